@@ -1,6 +1,7 @@
 import JF.Model.CellTaggers
 import JF.Model.FactorMaps
 import JF.Lemmas.FactorCells
+import JF.Lemmas.FactorMaps
 /-!
 # C10 — Cell-based and file-based factor decompositions cover each partner exactly once
 
@@ -20,6 +21,9 @@ open JF.CellTaggers
 
 /-- the cells of the grid that are not nearby `c`, in grid order -/
 def nonNearby (g : Grid) (c : Cell) : List Cell := (allCells g.n).filter fun x => !(isNearby g c x)
+
+theorem nodup_nonNearby (g : Grid) (c : Cell) : (nonNearby g c).Nodup :=
+  (nodup_allCells g.n).filter _
 
 theorem vetoDomain_eq (g : Grid) : vetoDomain g = nonNearby g (zeroCell g.n) := by
   simp [vetoDomain, vetoDomainKeyed, nonNearby, List.map_map, Function.comp_def]
@@ -43,7 +47,7 @@ theorem veto_domain_translate (g : Grid) (ac : Cell) (hac : Valid g.n ac) :
     intro x hx y hy h
     simp only [nonNearby, List.mem_filter] at hx hy
     exact translate_inj hac (mem_allCells.mp hx.1) (mem_allCells.mp hy.1) h
-  rw [List.perm_ext_iff_of_nodup hnd ((nodup_allCells g.n).filter _)]
+  rw [List.perm_ext_iff_of_nodup hnd (nodup_nonNearby g ac)]
   intro x
   simp only [nonNearby, List.mem_map, List.mem_filter, mem_allCells, Bool.not_eq_eq_eq_not,
     Bool.not_true]
@@ -78,7 +82,7 @@ theorem vetoArgs_filterMap (s : Occ) (c : Cell) : (vetoArgs s c).filterMap id = 
     simp [this]
   · induction s.occ c with
     | nil => rfl
-    | cons x xs ih => simp [List.filterMap_cons]
+    | cons x xs ih => simp
 
 /-- with at most one occupant per cell (the shipped leaf-unit cell-veto set-up) the mediator hands
 exactly one argument to `send_out_state` -/
@@ -96,7 +100,9 @@ theorem targetsVeto_eq (g : Grid) (s : Occ) (ac : Cell) (a : Ident) (h : s.activ
   simp only [targetsVeto, vetoTargets, h]
   induction vetoDomain g with
   | nil => rfl
-  | cons r rs ih => simp [List.flatMap_cons, vetoArgs_filterMap, ih]
+  | cons r rs ih =>
+    simp only [List.map_cons, List.flatMap_cons]
+    rw [ih, vetoArgs_filterMap]
 
 theorem flatMap_filter_nonempty {α β : Type} (f : α → List β) (p : α → Bool) (l : List α) :
     (l.filter fun c => !(f c).isEmpty && p c).flatMap f = (l.filter p).flatMap f := by
@@ -105,10 +111,10 @@ theorem flatMap_filter_nonempty {α β : Type} (f : α → List β) (p : α → 
   | cons x xs ih =>
     by_cases hp : p x = true <;> by_cases he : (f x).isEmpty = true
     · have : f x = [] := by simpa using he
-      simp [List.filter_cons, hp, he, ih, this]
-    · simp [List.filter_cons, hp, he, ih]
-    · simp [List.filter_cons, hp, he, ih]
-    · simp [List.filter_cons, hp, he, ih]
+      simp [hp, ih, this]
+    · simp [hp, he, ih]
+    · simp [hp, he, ih]
+    · simp [hp, he, ih]
 
 theorem targetsBounding_eq (g : Grid) (s : Occ) (ac : Cell) (a : Ident) (h : s.active = some (ac, a)) :
     targetsBounding g s = (nonNearby g ac).flatMap s.occ := by
@@ -139,8 +145,11 @@ theorem targetsExcluded_eq (g : Grid) (s : Occ) (ac : Cell) (a : Ident) (h : s.a
 theorem targetsSurplus_eq (s : Occ) (ac : Cell) (a : Ident) (h : s.active = some (ac, a)) :
     targetsSurplus s = s.yieldSurplus := by
   simp only [targetsSurplus, surplusCellsTagger, h]
-  have := pairTargets_pairs a (fun x : Ident => [x]) s.yieldSurplus
-  simpa [List.flatMap_singleton'] using this
+  induction s.yieldSurplus with
+  | nil => rfl
+  | cons x xs ih =>
+    simp only [pairTargets] at ih ⊢
+    simp [List.flatMap_cons, ih]
 
 /-- The explicit invariant of the occupancy state the theorems need (that `SingleActiveCellOccupancy`
 maintains it is property C11): the active unit is `a` in the valid cell `ac`, and the stored
@@ -231,5 +240,351 @@ theorem instates_start_with_active (g : Grid) (s : Occ) (ac : Cell) (a : Ident) 
   simp only [cellVetoTagger, cellBoundingTagger, excludedCellsTagger, surplusCellsTagger, h,
     List.mem_append, List.mem_map, List.mem_flatMap, List.mem_singleton] at hi
   rcases hi with ((rfl | ⟨c, _, rfl⟩) | ⟨c, _, o, _, rfl⟩) | ⟨x, _, rfl⟩ <;> rfl
+
+/-! ## factor-file half -/
+open JF.FactorMaps
+
+/-- the other composite objects, in the order of `range(number_of_root_nodes)` -/
+def others (s : Setting) (r : Nat) : List Nat := (List.range s.nRoots).filter fun o => o != r
+
+/-- `ty` is an inter-object factor type of the file: one of its lines names a point mass of the
+second composite object -/
+def InterType (s : Setting) (lines : List Line) (ty : String) : Prop :=
+  ∃ S ∈ linesOf lines ty, ∃ t ∈ S, s.nPer ≤ t
+
+/-- `ty` is an intra-object factor type of the file: it occurs, and all its lines stay within the
+first composite object -/
+def IntraType (s : Setting) (lines : List Line) (ty : String) : Prop :=
+  linesOf lines ty ≠ [] ∧ ∀ S ∈ linesOf lines ty, ∀ t ∈ S, t < s.nPer
+
+theorem match_lookup_eq_getL {β : Type} (m : IndexMap) (i : Nat) (f : List Nat → β) :
+    (match m.lookup i with | none => [] | some ls => ls.map f) = (getL m i).map f := by
+  unfold getL
+  cases m.lookup i <;> rfl
+
+/-- the dictionary entry of a type that occurs in an accepted file -/
+theorem lookup_of_lines {s : Setting} {lines : List Line} {fs : Factors} {ty : String}
+    (h : instantiate s lines [] = .ok fs) (hne : linesOf lines ty ≠ []) :
+    ∃ tm, fs.lookup ty = some tm ∧ GoodTy s (linesOf lines ty) tm := by
+  have hg := good_of_instantiate h
+  cases hl : fs.lookup ty with
+  | none => exact absurd (hg.1 _ hl) hne
+  | some tm => exact ⟨tm, rfl, hg.2 _ _ hl⟩
+
+/-- **C10, factor half, inter-object factor types.**  For an accepted file, an inter-object type
+`ty`, composite objects with more than one point mass and a valid active point mass `(r, i)`:
+the in-states are the lines of the type that contain `i` (as an index of the first object;
+`entries` = in file order, once per occurrence), instantiated once per other composite object `o`
+— and nothing else. -/
+theorem factor_spec_inter (s : Setting) (lines : List Line) (fs : Factors) (ty : String) (r i : Nat)
+    (h : instantiate s lines [] = .ok fs) (hinter : InterType s lines ty) (hn : s.nPer ≠ 1)
+    (hr : r < s.nRoots) (hi : i < s.nPer) :
+    yieldFactor s fs ty [r, i] =
+      .ok ((others s r).flatMap fun o => (entries i (linesOf lines ty)).map (inst s.nPer r o)) := by
+  obtain ⟨S, hS, t, ht, htn⟩ := hinter
+  obtain ⟨tm, hl, g⟩ := lookup_of_lines h (List.ne_nil_of_mem hS)
+  obtain ⟨b, hb, hall⟩ := g.loc
+  have hbf : b = false := by
+    rw [← hall S hS]
+    simp only [isLocalLine, List.all_eq_false]
+    exact ⟨t, ht, by simpa using htn⟩
+  subst hbf
+  have hn1 : (s.nPer == 1) = false := by simpa using hn
+  have hm := g.map i
+  simp only [hi, if_true] at hm
+  simp only [yieldFactor, hl, hb, hn1, Bool.false_eq_true, if_false, yieldNonLocal, hr, hi, and_self,
+    if_true, others]
+  congr 2
+  funext o
+  rw [← hm]
+  unfold getL
+  cases tm.map.lookup i <;> rfl
+
+/-- **C10, factor half, intra-object factor types.**  The in-states for `(r, i)` are the lines of the
+type containing `i`, instantiated once, within the active composite object.  If no line of the
+type contains `i` the real code raises `KeyError` (a loud error outcome) instead of yielding
+nothing. -/
+theorem factor_spec_intra (s : Setting) (lines : List Line) (fs : Factors) (ty : String) (r i : Nat)
+    (h : instantiate s lines [] = .ok fs) (hintra : IntraType s lines ty)
+    (hr : r < s.nRoots) (hi : i < s.nPer) :
+    yieldFactor s fs ty [r, i] =
+      if entries i (linesOf lines ty) = [] then .error "KeyError"
+      else .ok ((entries i (linesOf lines ty)).map (inst s.nPer r r)) := by
+  obtain ⟨hne, hloc⟩ := hintra
+  obtain ⟨tm, hl, g⟩ := lookup_of_lines h hne
+  obtain ⟨b, hb, hall⟩ := g.loc
+  obtain ⟨S, hS⟩ := List.exists_mem_of_ne_nil _ hne
+  have hbt : b = true := by
+    rw [← hall S hS]
+    simp only [isLocalLine, List.all_eq_true]
+    intro t ht; simpa using hloc S hS t ht
+  subst hbt
+  have hgl := g.map i
+  simp only [hi, if_true] at hgl
+  simp only [yieldFactor, hl, hb, yieldLocal, hr, if_true]
+  cases hlk : tm.map.lookup i with
+  | none =>
+    have : entries i (linesOf lines ty) = [] := by
+      rw [← hgl]; exact (lookup_none_iff g.noEmpty i).mp hlk
+    simp [this]
+  | some ls =>
+    have hls : ls = entries i (linesOf lines ty) := by rw [← hgl, lookup_some_getL hlk]
+    have hne' : entries i (linesOf lines ty) ≠ [] := hls ▸ g.noEmpty i ls hlk
+    simp only [hne', if_false]
+    subst hls
+    congr 1
+    apply List.map_congr_left
+    intro S' hS'
+    have hS'L : S' ∈ linesOf lines ty := by
+      simp only [entries, List.mem_flatMap] at hS'
+      obtain ⟨S'', h1, h2⟩ := hS'
+      rw [List.eq_of_mem_replicate h2]; exact h1
+    simp only [inst]
+    apply List.map_congr_left
+    intro t ht
+    simp [hloc S' hS'L t ht]
+
+/-- an intra-object type asked for an index beyond the composite object: `KeyError` -/
+theorem factor_intra_index_out_of_range (s : Setting) (lines : List Line) (fs : Factors) (ty : String)
+    (r i : Nat) (h : instantiate s lines [] = .ok fs) (hintra : IntraType s lines ty)
+    (hr : r < s.nRoots) (hi : ¬ i < s.nPer) :
+    yieldFactor s fs ty [r, i] = .error "KeyError" := by
+  obtain ⟨hne, hloc⟩ := hintra
+  obtain ⟨tm, hl, g⟩ := lookup_of_lines h hne
+  obtain ⟨b, hb, hall⟩ := g.loc
+  obtain ⟨S, hS⟩ := List.exists_mem_of_ne_nil _ hne
+  have hbt : b = true := by
+    rw [← hall S hS]
+    simp only [isLocalLine, List.all_eq_true]
+    intro t ht; simpa using hloc S hS t ht
+  subst hbt
+  have hgl := g.map i
+  simp only [hi, if_false] at hgl
+  have := (lookup_none_iff g.noEmpty i).mpr hgl
+  simp [yieldFactor, hl, hb, yieldLocal, hr, this]
+
+/-- **C10, factor half, no composite objects (`n = 1`).**  An inter-object type of the file (the
+shipped `[0, 1], Coulomb`) yields the pair of the active point mass with every other point mass,
+once each; the content of the lines is not consulted. -/
+theorem factor_spec_no_composite (s : Setting) (lines : List Line) (fs : Factors) (ty : String) (r : Nat)
+    (h : instantiate s lines [] = .ok fs) (hinter : InterType s lines ty) (hn : s.nPer = 1)
+    (hr : r < s.nRoots) :
+    yieldFactor s fs ty [r] = .ok ((others s r).map fun o => [[r], [o]]) := by
+  obtain ⟨S, hS, t, ht, htn⟩ := hinter
+  obtain ⟨tm, hl, g⟩ := lookup_of_lines h (List.ne_nil_of_mem hS)
+  obtain ⟨b, hb, hall⟩ := g.loc
+  have hbf : b = false := by
+    rw [← hall S hS]
+    simp only [isLocalLine, List.all_eq_false]
+    exact ⟨t, ht, by simpa using htn⟩
+  subst hbf
+  have hn1 : (s.nPer == 1) = true := by simpa using hn
+  simp only [yieldFactor, hl, hb, hn1, if_true, yieldNoComposite, hr, others]
+  congr 2
+  apply List.filter_congr
+  intro o _
+  by_cases hor : o = r
+  · subst hor; simp
+  · have h1 : ([o] != [r]) = true := by simpa using hor
+    have h2 : (o != r) = true := by simpa using hor
+    rw [h1, h2]
+
+/-- a factor type that does not occur in the file falls back on the all-pairs map -/
+theorem factor_default (s : Setting) (lines : List Line) (fs : Factors) (ty : String) (r i : Nat)
+    (h : instantiate s lines [] = .ok fs) (habs : linesOf lines ty = []) (hn : s.nPer ≠ 1)
+    (hr : r < s.nRoots) (hi : i < s.nPer) :
+    yieldFactor s fs ty [r, i] =
+      .ok ((others s r).flatMap fun o => (List.range s.nPer).map fun l => [[r, i], [o, l]]) := by
+  have hg := good_of_instantiate h
+  have hl : fs.lookup ty = none := by
+    cases hl : fs.lookup ty with
+    | none => rfl
+    | some tm => exact absurd habs (hg.2 _ _ hl).nonempty
+  have hn1 : (s.nPer == 1) = false := by simpa using hn
+  simp [yieldFactor, hl, hn1, yieldAllComposite, hr, hi, others]
+
+/-- index *sets*: if no line of the type repeats an index, "once per occurrence" is "the lines
+that contain `i`" -/
+theorem factor_spec_inter_sets (s : Setting) (lines : List Line) (fs : Factors) (ty : String) (r i : Nat)
+    (h : instantiate s lines [] = .ok fs) (hinter : InterType s lines ty) (hn : s.nPer ≠ 1)
+    (hr : r < s.nRoots) (hi : i < s.nPer) (hset : ∀ S ∈ linesOf lines ty, S.Nodup) :
+    yieldFactor s fs ty [r, i] =
+      .ok ((others s r).flatMap fun o =>
+        ((linesOf lines ty).filter fun S => S.contains i).map (inst s.nPer r o)) := by
+  rw [factor_spec_inter s lines fs ty r i h hinter hn hr hi, entries_of_nodup i _ hset]
+
+theorem factor_spec_intra_sets (s : Setting) (lines : List Line) (fs : Factors) (ty : String) (r i : Nat)
+    (h : instantiate s lines [] = .ok fs) (hintra : IntraType s lines ty)
+    (hr : r < s.nRoots) (hi : i < s.nPer) (hset : ∀ S ∈ linesOf lines ty, S.Nodup)
+    (hcov : ∃ S ∈ linesOf lines ty, i ∈ S) :
+    yieldFactor s fs ty [r, i] =
+      .ok (((linesOf lines ty).filter fun S => S.contains i).map (inst s.nPer r r)) := by
+  rw [factor_spec_intra s lines fs ty r i h hintra hr hi, entries_of_nodup i _ hset]
+  obtain ⟨S, hS, hiS⟩ := hcov
+  have : (linesOf lines ty).filter (fun S => S.contains i) ≠ [] :=
+    List.ne_nil_of_mem (List.mem_filter.mpr ⟨hS, by simpa using hiS⟩)
+  rw [if_neg this]
+
+/-! ### each in-state once -/
+
+theorem instFun_injective (n r o : Nat) (hor : o ≠ r) :
+    Function.Injective fun t : Nat => if t < n then [r, t] else [o, t - n] := by
+  intro t t' h
+  dsimp only at h
+  split at h <;> split at h <;> simp only [List.cons.injEq, and_true] at h
+  · exact h.2
+  · exact absurd h.1.symm hor
+  · exact absurd h.1 hor
+  · omega
+
+theorem inst_injective (n r o : Nat) (hor : o ≠ r) : Function.Injective (inst n r o) :=
+  List.map_injective_iff.mpr (instFun_injective n r o hor)
+
+/-- an instantiated line that reaches into the other composite object tells which one it is -/
+theorem inst_other_eq {n r o o' : Nat} {S S' : List Nat} (hor : o ≠ r) (t : Nat) (ht : t ∈ S) (htn : n ≤ t)
+    (h : inst n r o S = inst n r o' S') : o = o' := by
+  have hm : [o, t - n] ∈ inst n r o S := by
+    simp only [inst, List.mem_map]
+    exact ⟨t, ht, by simp [Nat.not_lt.mpr htn]⟩
+  rw [h] at hm
+  simp only [inst, List.mem_map] at hm
+  obtain ⟨t', _, ht'⟩ := hm
+  split at ht' <;> simp only [List.cons.injEq, and_true] at ht'
+  · exact absurd ht'.1.symm hor
+  · exact ht'.1.symm
+
+theorem inst_same_injOn (n r : Nat) : ∀ (S S' : List Nat), (∀ t ∈ S, t < n) → (∀ t ∈ S', t < n) →
+    inst n r r S = inst n r r S' → S = S'
+  | [], [], _, _, _ => rfl
+  | [], _ :: _, _, _, h => by simp [inst] at h
+  | _ :: _, [], _, _, h => by simp [inst] at h
+  | t :: S, t' :: S', hS, hS', h => by
+    simp only [inst, List.map_cons, List.cons.injEq] at h
+    have h1 := hS t (by simp)
+    have h2 := hS' t' (by simp)
+    simp only [h1, h2, if_true, List.cons.injEq, and_true, true_and] at h
+    rw [h.1, inst_same_injOn n r S S' (fun x hx => hS x (by simp [hx])) (fun x hx => hS' x (by simp [hx])) h.2]
+
+/-- **each inter-object in-state once**: if the file does not repeat a line of the type and every
+line is an index set, the in-states yielded for `(r, i)` are pairwise different -/
+theorem factor_inter_nodup (s : Setting) (lines : List Line) (fs : Factors) (ty : String) (r i : Nat)
+    (h : instantiate s lines [] = .ok fs) (hinter : InterType s lines ty) (hn : s.nPer ≠ 1)
+    (hr : r < s.nRoots) (hi : i < s.nPer) (hset : ∀ S ∈ linesOf lines ty, S.Nodup)
+    (hlines : (linesOf lines ty).Nodup) :
+    ∃ l, yieldFactor s fs ty [r, i] = .ok l ∧ l.Nodup := by
+  refine ⟨_, factor_spec_inter_sets s lines fs ty r i h hinter hn hr hi hset, ?_⟩
+  -- every line of an inter-object type reaches into the other object
+  have hreach : ∀ S ∈ linesOf lines ty, ∃ t ∈ S, s.nPer ≤ t := by
+    obtain ⟨S0, hS0, t0, ht0, htn0⟩ := hinter
+    obtain ⟨tm, _, g⟩ := lookup_of_lines h (List.ne_nil_of_mem hS0)
+    obtain ⟨b, _, hall⟩ := g.loc
+    have hbf : b = false := by
+      rw [← hall S0 hS0]
+      simp only [isLocalLine, List.all_eq_false]
+      exact ⟨t0, ht0, by simpa using htn0⟩
+    intro S hS
+    have := hall S hS
+    rw [hbf] at this
+    simp only [isLocalLine, List.all_eq_false] at this
+    obtain ⟨t, ht, htn⟩ := this
+    exact ⟨t, ht, by simpa using htn⟩
+  have hothers : (others s r).Nodup := List.nodup_range.filter _
+  rw [List.nodup_flatMap]
+  constructor
+  · intro o ho
+    have hor : o ≠ r := by
+      simp only [others, List.mem_filter] at ho
+      simpa using ho.2
+    exact (hlines.filter _).map (inst_injective _ _ _ hor)
+  · refine hothers.pairwise_of_forall_ne fun o ho o' _ hoo' => ?_
+    have hor : o ≠ r := by
+      simp only [others, List.mem_filter] at ho
+      simpa using ho.2
+    simp only [Function.onFun, List.Disjoint, List.mem_map, List.mem_filter]
+    rintro x ⟨S, ⟨hS, _⟩, rfl⟩ ⟨S', _, h'⟩
+    obtain ⟨t, ht, htn⟩ := hreach S hS
+    exact hoo' (inst_other_eq hor t ht htn h'.symm)
+
+/-- **each intra-object in-state once** -/
+theorem factor_intra_nodup (s : Setting) (lines : List Line) (fs : Factors) (ty : String) (r i : Nat)
+    (h : instantiate s lines [] = .ok fs) (hintra : IntraType s lines ty)
+    (hr : r < s.nRoots) (hi : i < s.nPer) (hset : ∀ S ∈ linesOf lines ty, S.Nodup)
+    (hlines : (linesOf lines ty).Nodup) (hcov : ∃ S ∈ linesOf lines ty, i ∈ S) :
+    ∃ l, yieldFactor s fs ty [r, i] = .ok l ∧ l.Nodup := by
+  refine ⟨_, factor_spec_intra_sets s lines fs ty r i h hintra hr hi hset hcov, ?_⟩
+  refine List.Nodup.map_on ?_ (hlines.filter _)
+  intro S hS S' hS' he
+  exact inst_same_injOn _ _ S S' (hintra.2 S (List.mem_filter.mp hS).1) (hintra.2 S' (List.mem_filter.mp hS').1) he
+
+/-! ### the tagger: union over the active leaves, de-duplicated -/
+
+theorem yieldAll_ok {s : Setting} {fs : Factors} {ty : String} : ∀ {leaves : List Ident} {l : List InState},
+    yieldAll s fs ty leaves = .ok l →
+    ∀ f, f ∈ l ↔ ∃ leaf ∈ leaves, ∃ l', yieldFactor s fs ty leaf = .ok l' ∧ f ∈ l'
+  | [], l, h, f => by
+    simp only [yieldAll] at h
+    injection h with h
+    subst h; simp
+  | a :: rest, l, h, f => by
+    simp only [yieldAll] at h
+    split at h
+    · cases h
+    · rename_i la hla
+      split at h
+      · cases h
+      · rename_i lr hlr
+        injection h with h
+        subst h
+        rw [List.mem_append, yieldAll_ok hlr f]
+        constructor
+        · rintro (hf | ⟨leaf, hleaf, l', hl', hf⟩)
+          · exact ⟨a, by simp, la, hla, hf⟩
+          · exact ⟨leaf, by simp [hleaf], l', hl', hf⟩
+        · rintro ⟨leaf, hleaf, l', hl', hf⟩
+          rcases List.mem_cons.mp hleaf with rfl | hleaf
+          · rw [hla] at hl'; injection hl' with hl'; subst hl'; exact Or.inl hf
+          · exact Or.inr ⟨leaf, hleaf, l', hl', hf⟩
+
+theorem yieldAll_error {s : Setting} {fs : Factors} {ty : String} : ∀ {leaves : List Ident} {e : String},
+    yieldAll s fs ty leaves = .error e → ∃ leaf ∈ leaves, yieldFactor s fs ty leaf = .error e
+  | [], e, h => by simp [yieldAll] at h
+  | a :: rest, e, h => by
+    simp only [yieldAll] at h
+    split at h
+    · rename_i e' he'
+      injection h with h
+      subst h; exact ⟨a, by simp, he'⟩
+    · split at h
+      · rename_i e' he'
+        injection h with h
+        subst h
+        obtain ⟨leaf, hleaf, hl⟩ := yieldAll_error he'
+        exact ⟨leaf, by simp [hleaf], hl⟩
+      · cases h
+
+/-- **C10, factor half, active composite object.**  The tagger yields every in-state that some
+active leaf yields, and each exactly once (the in-state of a factor with several active members
+is not duplicated). -/
+theorem tagger_spec (s : Setting) (fs : Factors) (ty : String) (leaves : List Ident) (l : List InState)
+    (h : taggerYield s fs ty leaves = .ok l) :
+    l.Nodup ∧ ∀ f, f ∈ l ↔ ∃ leaf ∈ leaves, ∃ l', yieldFactor s fs ty leaf = .ok l' ∧ f ∈ l' := by
+  simp only [taggerYield] at h
+  split at h
+  · cases h
+  · rename_i la hla
+    injection h with h
+    subst h
+    exact ⟨nodup_dedupe _, fun f => by rw [mem_dedupe]; exact yieldAll_ok hla f⟩
+
+/-- the tagger fails only if one of the leaves' maps fails, with that error -/
+theorem tagger_error (s : Setting) (fs : Factors) (ty : String) (leaves : List Ident) (e : String)
+    (h : taggerYield s fs ty leaves = .error e) :
+    ∃ leaf ∈ leaves, yieldFactor s fs ty leaf = .error e := by
+  simp only [taggerYield] at h
+  split at h
+  · rename_i e' he'
+    injection h with h
+    subst h; exact yieldAll_error he'
+  · cases h
 
 end JF.C10
